@@ -264,6 +264,23 @@ func genC09(g *Gen) error {
 		{"src_int_merge", "engine/immutable/pre_aggregation.go", "IntegerPreAgg.merge"},
 		{"src_float_merge", "engine/immutable/pre_aggregation.go", "FloatPreAgg.merge"},
 		{"src_isPreAggRead", "engine/immutable/location.go", "Location.isPreAggRead"},
+		{"src_firstTieTakesBase", "engine/immutable/reader.go", "firstTieTakesBase"},
+		{"src_compareMin", "engine/immutable/reader.go", "compareMin"},
+		{"src_minBool", "engine/immutable/reader.go", "minBool"},
+		{"src_maxBool", "engine/immutable/reader.go", "maxBool"},
+		{"src_int_marshal", "engine/immutable/pre_aggregation.go", "IntegerPreAgg.marshal"},
+		{"src_float_marshal", "engine/immutable/pre_aggregation.go", "FloatPreAgg.marshal"},
+		{"src_bool_marshal", "engine/immutable/pre_aggregation.go", "BooleanPreAgg.marshal"},
+		{"src_string_marshal", "engine/immutable/pre_aggregation.go", "StringPreAgg.marshal"},
+		{"src_time_marshal", "engine/immutable/pre_aggregation.go", "TimePreAgg.marshal"},
+		{"src_firstLast_unmarshalPreAgg", "engine/immutable/first_last_reader.go", "FirstLastReader.unmarshalPreAgg"},
+		{"src_mergeIntegerPreAgg", "engine/immutable/stream_compact.go", "StreamIterators.mergeIntegerPreAgg"},
+		{"src_mergeFloatPreAgg", "engine/immutable/stream_compact.go", "StreamIterators.mergeFloatPreAgg"},
+		{"src_mergeBooleanPreAgg", "engine/immutable/stream_compact.go", "StreamIterators.mergeBooleanPreAgg"},
+		{"src_mergeStringPreAgg", "engine/immutable/stream_compact.go", "StreamIterators.mergeStringPreAgg"},
+		{"src_readMemTableMetaRecord", "engine/iterators_helper.go", "recordIter.readMemTableMetaRecord"},
+		{"src_setIntColumnMeta", "engine/iterators_helper.go", "recordIter.setIntColumnMeta"},
+		{"src_setBoolColumnMeta", "engine/iterators_helper.go", "recordIter.setBoolColumnMeta"},
 		{"src_countMeta", "engine/immutable/reader.go", "countMeta"},
 		{"src_sumMeta", "engine/immutable/reader.go", "sumMeta"},
 		{"src_sumRangeValues", "engine/immutable/reader.go", "sumRangeValues"},
